@@ -238,7 +238,7 @@ def asyncDrain (m : Machine) (env : GEnv) : Nat → St → St
     | [] => s
     | e :: rest => asyncDrain m env fuel (asyncStep m env e { s with queue := rest })
 
-def asyncFuel : Nat := 1500
+def asyncFuel (m : Machine) : Nat := 10 * m.maxIterations + 50
 
 def asyncStart (m : Machine) (env : GEnv) (s : St) : St :=
   let s := { s with status := "running" }
@@ -249,10 +249,10 @@ def asyncStart (m : Machine) (env : GEnv) (s : St) : St :=
   if s.err.isSome then { s with status := "stopped" } else
   let s := transientLoop hooksFlagged .async m env m.maxIterations s
   if s.err.isSome then { s with status := "stopped" } else
-  asyncDrain m env asyncFuel s
+  asyncDrain m env (asyncFuel m) s
 
 def asyncSend (m : Machine) (env : GEnv) (e : Ev) (s : St) : St :=
-  if s.status = "running" then asyncDrain m env asyncFuel { s with queue := s.queue ++ [e] } else s
+  if s.status = "running" then asyncDrain m env (asyncFuel m) { s with queue := s.queue ++ [e] } else s
 
 def start (fl : Flavor) := match fl with | .sync => syncStart | .async => asyncStart
 def send (fl : Flavor) := match fl with | .sync => syncSend | .async => asyncSend
